@@ -164,7 +164,7 @@ pub fn static_problem<D: Store + Mk>(a: &Accepted<D>) -> Option<(String, String)
 pub fn dynamic_problem<D: Store + Mk>(mut a: Accepted<D>, max_steps: u64, acc: &mut Acc) -> Option<(String, String)> {
     a.m.host = Host::declining();
     a.m.max_instr = usize::MAX;
-    a.m.max_data = a.d0 + 60_000;
+    a.m.max_data = a.d0 + 10_000;
     // a restart that doubles a concatenation makes later look-ups exponential: bounded number of cell reads per run
     a.m.max_reads = a.m.reads.get() + 1_000_000;
     let unit = a.m.add_unit().ok()?;
